@@ -169,7 +169,8 @@ M("name_setter_keeps_reserved_bit", ["C15"], "D29 reverted: the value setter sto
 M("request_dispatch_over_live_list", ["C14"], "D30 reverted: request callbacks dispatched over the live list",
   ("j1939/controller_application.py", "            for subscriber in list(self._subscribers_request):", "            for subscriber in self._subscribers_request:"))
 M("tp21_data_kept_by_reference", ["C01"], "D31 reverted: the send session stores the caller's list object",
-  ("j1939/j1939_21.py", '"data": list(data),   # a copy: the caller may reuse its list', '"data": data,'))
+  ("j1939/j1939_21.py", '"data": list(data),   # a copy: the caller may reuse its list\n                        "state": self.SendBufferState.SENDING_BM,',
+   '"data": data,\n                        "state": self.SendBufferState.SENDING_BM,'))
 M("tp21_bam_released_before_last_packet", ["C01"], "D32 reverted: the broadcast session is deleted before the last packet is written",
   ("j1939/j1939_21.py", "                        self.__send_tp_dt(buf['src_address'], buf['dest_address'], data)\n\n                        buf['next_packet_to_send'] += 1\n",
    "                        buf['next_packet_to_send'] += 1\n"),
